@@ -565,6 +565,8 @@ def write_evidence(prop, tier, base_seed, stats, wall, violations, extra=None):
 def run_corpus(prop, stats, known, base_seed, keep_digest=False):
   """ Directed corpus first: every entry under S=[] and a few seeded S. """
   n = 0
+  if os.environ.get("VERIF_NO_CORPUS"):      # experiments only
+    return
   for ci, workload in enumerate(prop.corpus()):
     tries = [("zero", None)]
     for k in range(prop.extra_schedules()):
